@@ -157,7 +157,7 @@ fn wire_exchange(addr: std::net::SocketAddr, accept: Option<&str>, case_hdr: &st
     let mut buf: Vec<u8> = vec![];
     let mut closed = false;
     let mut last = Instant::now();
-    let idle = Duration::from_millis(1500);
+    let idle = Duration::from_millis(8000);
     let mut fill = |buf: &mut Vec<u8>, closed: &mut bool, last: &mut Instant| -> bool {
         // returns false when nothing more will come (closed, or idle for too long)
         let mut tmp = [0u8; 65536];
